@@ -204,6 +204,35 @@ def twin(line, rng):
     return " ; ".join(out)
 
 
+def twin_scripted(rng, n):
+    """scripted twins: a widening drops a bound that the surviving relation and the other bound still
+    imply (the value then needs closure), the result is copied by assignment onto an existing
+    value, and an operation whose result depends on the closure (forget of the other variable,
+    an entailment, a join with itself) is applied to the original and to the copy"""
+    out = []
+    for _ in range(n):
+        nv = rng.choice([2, 3])
+        x, y = rng.sample(range(nv), 2)
+        d = rng.randint(0, 3); bx = rng.randint(-5, 10); by = bx + d - rng.randint(1, 6)
+        up = rng.random() < 0.6
+        sg = 1 if up else -1
+        # relation: sg*(y - x) <= d ; bounds sg*x <= bx, sg*y <= by  (by tighter than what relation + bx imply)
+        rel = "C le E 2 %d %d %d %d %d" % (-sg, x, sg, y, -d) if x < y else "C le E 2 %d %d %d %d %d" % (sg, y, -sg, x, -d)
+        cbx = "C le E 1 %d %d %d" % (sg, x, -bx); cby = "C le E 1 %d %d %d" % (sg, y, -by)
+        ops = ["assume 0 3 %s %s %s" % (cbx, rel, cby), "assume 1 2 %s %s" % (cbx, rel), "widen 2 0 1",
+               "assume 3 1 C le E 1 1 0 -3", "copy 3 2", "q_at 2", "q_at 3"]
+        k = rng.random()
+        if k < 0.5:
+            ops += ["forget 2 1 %d" % x, "forget 3 1 %d" % x]
+        elif k < 0.75:
+            ops += ["join 2 2 2", "join 3 3 3", "forget 2 1 %d" % x, "forget 3 1 %d" % x]
+        else:
+            ops += ["assume 2 1 C le E 1 %d %d %d" % (-sg, y, bx + d + 1), "assume 3 1 C le E 1 %d %d %d" % (-sg, y, bx + d + 1)]
+        ops += ["q_at 2", "q_at 3", "q_csts 2", "q_csts 3"]
+        out.append("hist 4 %d ; %s" % (nv, " ; ".join(ops)))
+    return out
+
+
 def twin_oracle(line, ans):
     """consecutive  q_at s ; q_at T  /  q_csts s ; q_csts T  (T = the last register) must agree"""
     if ans.startswith("ABORT") or ans == "MISSING" or ans.startswith("HARNESS-ERROR"):
